@@ -149,6 +149,7 @@ def module_state_hash():
                         # Node / Unit default objects are compared by their attribute values
                         parts.append((mname, name, an, repr([getattr(x, "__dict__", x) if not isinstance(x, (int, float, str, type(None), bool, list, dict, tuple)) else x
                                                              for x in (d or ())])[:800]))
-                    elif isinstance(av, (dict, list, set)):
+                    elif isinstance(av, (dict, list, set)) and not (an.startswith("__") and an.endswith("__")):
+                        # (dunder caches such as __slotnames__, written by copy / pickle, are interpreter bookkeeping)
                         parts.append((mname, name, an, repr(av)[:800]))
     return _h(repr(parts))
